@@ -141,3 +141,38 @@ for _n, _fl in ((1, []), (2, ['-DVF_TREE_RBT'])):
     _s['parallel_configs'] = _s.get('parallel_configs', 1) + 1
     _s['technique'] = _s.get('technique', '') + '; insert / remove / search inlined (LTO, -O3, strict aliasing) into a client that reads root.node right before and after each call'
     _s['require'] = list(_s.get('require', [])) + ['lto-root-read-right-after-inlined-call', 'lto-root-changed-by-call']
+
+# the routines EXECUTED under another data model (seeded change C17-L): harness/h_ilp32.c as a freestanding static i386 program (ILP32: int, long, size_t,
+# pointers 32 bits; unsigned long narrower than a_u64; the 32-bit packed parent word of the tree nodes). Skipped (and said so in the evidence) where
+# clang cannot produce or this kernel cannot run such a program.
+def _ilp32_ok():
+    import subprocess, tempfile, os as _o
+    try:
+        d = tempfile.mkdtemp(prefix='vf-ilp32-')
+        src = _o.path.join(d, 't.c')
+        open(src, 'w').write('void _start(void){ __asm__ volatile("int $0x80" :: "a"(1), "b"(42)); for(;;){} }\n')
+        r = subprocess.run(['clang', '-m32', '-ffreestanding', '-nostdlib', '-static', '-fno-pie', src, '-o', _o.path.join(d, 't')], capture_output=True)
+        ok = r.returncode == 0 and subprocess.run([_o.path.join(d, 't')], capture_output=True).returncode == 42
+        import shutil
+        shutil.rmtree(d, ignore_errors=True)
+        return ok
+    except Exception:
+        return False
+
+
+_ILP32 = _ilp32_ok()
+_ILP32_SRC = {1: ['avl.c'], 2: ['rbt.c'], 17: ['crc.c', 'hash.c'], 18: ['utf.c'], 19: ['math.c', 'a.c']}
+for _n in (1, 2, 17, 18, 19):
+    _s = PROPS['C%02d' % _n]
+    if not _ILP32:
+        _s['assumptions'] = list(_s.get('assumptions', [])) + ['configuration ilp32 NOT RUN: clang -m32 cannot produce, or this kernel cannot execute, a freestanding i386 program here']
+        continue
+    _b = _s['configs'] if 'configs' in _s else (lambda tier: [dict(name='default')])
+    _s['configs'] = (lambda b, n: lambda tier: b(tier) + [dict(name='ilp32', harness=['h_ilp32.c'], hflags=['-DVF_ILP32=%d' % n], flavour='ilp32', libcc='clang', hcc='clang',
+                                                               lib_sources=_ILP32_SRC[n], ldflags=['-nostdlib', '-static', '-Wl,--gc-sections'], nolibs=True, nworkers=1)])(_b, _n)
+    _s['parallel_configs'] = _s.get('parallel_configs', 1) + 1
+    _s['technique'] = _s.get('technique', '') + '; the same routines executed as a freestanding i386 (ILP32) program'
+    _s['assumptions'] = list(_s.get('assumptions', [])) + ['configuration ilp32: library sources and a freestanding harness compiled by clang -m32 -ffreestanding -nostdlib -static (own _start, int 0x80 '
+                                                           'system calls, stub C-library headers) and executed natively: int / long / size_t / pointers are 32 bits there; integer-only monitors']
+    _s['require'] = list(_s.get('require', [])) + [{1: 'ilp32-tree-walk-after-every-call', 2: 'ilp32-tree-walk-after-every-call', 17: 'ilp32-crc-vs-bitwise-division', 18: 'ilp32-utf-roundtrip',
+                                                     19: 'ilp32-sqrt-floor-property'}[_n]]
